@@ -4,6 +4,18 @@
    verdict: T | F | E<code> ; prefix tree: cond ::= a ATOM | & ATOM cond | "|" ATOM cond ;
    ATOM ::= v:<str> | e | g cond *)
 let verdict r = match r with Ok b -> b2s b | Err c -> "E" ^ string_of_int (int_of_n c) | Fuel -> "FUEL"
+(* The verdict printed for a token list is the one of the INDEX-FAITHFUL model CondIx.eval_slice_ix
+   (default release profile, wrapping i32: whole slice, start_block/index, i32 counter, `&arguments[start_block..index]`;
+   PANIC is an explicit outcome).  The suffix model Cond.eval_slice and the overflow-checked index model
+   (the profile of the harness build) are evaluated as well: by C06_ix_refines / C06_ix_checked all three agree, a disagreement is
+   printed as IXDIFF(..) and reported by the check as a broken obligation. *)
+let verdict_ix r = match r with
+  | IOk b -> b2s b | IErr c -> "E" ^ string_of_int (int_of_n c) | IFuel -> "FUEL" | IPanic -> "PANIC"
+let verdict3 ts =
+  let i = verdict_ix (eval_slice_ix ts) in
+  let d = verdict_ix (eval_slice_ix_checked ts) in
+  let s = verdict (eval_slice ts) in
+  if i = s && d = s then i else Printf.sprintf "IXDIFF(ix=%s,checked=%s,suffix=%s)" i d s
 let rec p_cond ts = match ts with
   | "a" :: r -> let (a, r) = p_atom r in (CAtom a, r)
   | "&" :: r -> let (a, r) = p_atom r in let (c, r) = p_cond r in (CAnd (a, c), r)
@@ -17,9 +29,9 @@ and p_atom ts = match ts with
   | _ -> failwith "bad atom"
 let () = iter_lines (fun line ->
   match fields line with
-  | ["T"; toks] -> print_endline (verdict (eval_slice (list_of_field toks)))
+  | ["T"; toks] -> print_endline (verdict3 (list_of_field toks))
   | ["C"; tree] ->
       let (c, _) = p_cond (String.split_on_char ' ' tree) in
       let ts = toks c in
-      Printf.printf "%s\t%s\t%s\n" (field_of_list ts) (verdict (eval_slice ts)) (b2s (sem is_true_some c))
+      Printf.printf "%s\t%s\t%s\n" (field_of_list ts) (verdict3 ts) (b2s (sem is_true_some c))
   | _ -> print_endline "BADLINE")
